@@ -83,11 +83,14 @@ class IgnoreDirectiveParser:
         """Take the top-level ignore list from the configuration the run actually uses.
 
         The configuration may come from .thailint.json, pyproject.toml or --config, not only
-        from .thailint.yaml. A .thailintignore file keeps its precedence.
+        from .thailint.yaml. A .thailintignore file keeps its precedence; it is read again,
+        because this parser is shared by every run of the process and the file may have changed.
         """
-        if (self.project_root / ".thailintignore").exists():
-            return
-        patterns = _extract_ignore_patterns(config)
+        ignore_file = self.project_root / ".thailintignore"
+        if ignore_file.exists():
+            patterns = _parse_thailintignore_file(ignore_file)
+        else:
+            patterns = _extract_ignore_patterns(config)
         if patterns != self.repo_patterns:
             self.repo_patterns = patterns
             self._ignore_cache.clear()
